@@ -371,6 +371,8 @@ def seq_replays(pid, exe, res):
             head = f.read(400)
         if "# expect: fail" in head:
             continue  # reproducers of known findings are handled above
+        if path.endswith(".search.txt"):
+            continue  # scheduled programs (C10's concurrent part): replayed by the olc harness
         n += 1
         rexe, rargs = exe, ["--prop", pid]
         if "# engine: qsbr_fault" in head:
@@ -527,6 +529,7 @@ def check_seq(pid, tier, seed):
         else:
             cplans = [["--seed", str(seed * 1000 + 700 + i), "--programs", "60", "--dfs-p", "2", "--dfs-cap", "20000",
                        "--pct", "60", "--rand", "60"] for i in range(NCPU)]
+        nrep += sched_replays(pid, olc, res, only_search=True)
         run_sched_workers(pid, olc, cplans, cdir, res)
         conc = merge_stats(sched_stats_files(cdir, len(cplans)))
     counters, distinct, samples = merge_stats(stat_files)
@@ -798,9 +801,9 @@ def run_sched_workers(pid, exe, plans, outdir, res, extra_args=None, timeout=6 *
         raise SystemExit(2)   # nothing was explored at all
 
 
-def sched_replays(pid, exe, res, extra_args=None):
+def sched_replays(pid, exe, res, extra_args=None, only_search=False):
     n = 0
-    for path in sorted(glob.glob(os.path.join(VERIF, "replays", pid, "*.txt"))):
+    for path in sorted(glob.glob(os.path.join(VERIF, "replays", pid, "*.search.txt" if only_search else "*.txt"))):
         with open(path) as f:
             head = f.read(600)
         if "# expect: fail" in head:
